@@ -56,7 +56,8 @@ type c17Op struct {
 
 type c17ConnScript struct {
 	HoldOpenMs int    `json:"hold_open_reply_ms,omitempty"`
-	OpenStyle  string `json:"open_style"` // plain | wrong-field | wrong-cap | cap-wins
+	OpenStyle  string `json:"open_style"` // plain | wrong-field | wrong-cap | cap-wins | as-trans-no-cap
+	AS4        string `json:"announces_4_octet_as,omitempty"` // "" (as the scenario says) | yes | no: what this connection's OPEN says
 	Fault      string `json:"fault,omitempty"`
 	K          int    `json:"k,omitempty"`
 	IdleMs     int    `json:"idle_ms,omitempty"`
@@ -106,6 +107,7 @@ type c17Conn struct {
 	tc          *net.TCPConn
 	script      c17ConnScript
 	scripted    bool
+	as4         bool // this connection's OPEN carries the four-octet capability
 	acceptSeq   int
 	acceptedAt  time.Time
 	afterClose  bool
@@ -401,6 +403,15 @@ func (p *c17Peer) acceptLoop() {
 		if cn.idx < len(p.sc.Conns) {
 			cn.script, cn.scripted = p.sc.Conns[cn.idx], true
 		}
+		cn.as4 = p.sc.PeerAS4
+		switch {
+		case cn.script.OpenStyle == "cap-wins" || cn.script.OpenStyle == "wrong-cap":
+			cn.as4 = true
+		case cn.script.AS4 == "yes":
+			cn.as4 = true
+		case cn.script.AS4 == "no":
+			cn.as4 = false
+		}
 		var lateBy time.Duration
 		if p.closeReturned {
 			cn.afterClose = true
@@ -441,7 +452,8 @@ func (p *c17Peer) fire(cn *c17Conn, what string) {
 	p.c.Count("faults:" + what)
 }
 
-func (p *c17Peer) peerOpen(style string) []byte {
+func (p *c17Peer) peerOpen(cn *c17Conn) []byte {
+	style := cn.script.OpenStyle
 	sc := p.sc
 	asn := sc.PeerASN
 	id := [4]byte{10, 255, 0, byte(1 + sc.ID%200)}
@@ -461,13 +473,15 @@ func (p *c17Peer) peerOpen(style string) []byte {
 		spec.Params = []vfBGPParamSpec{{Type: 2, Caps: append(extras, vfBGPCapAS4Value(asn+7))}}
 		msg, _, _ := vfBGPEncodeOpen(spec)
 		return msg
+	case "as-trans-no-cap": // the peer is configured with a four-octet number; this one says 23456 and has no capability: its AS is 23456
+		return vfBGPSimpleOpen(vfBGPASTrans, false, sc.PeerHoldS, id, extras, false)
 	case "cap-wins": // AS_TRANS in the fixed field, the right number in the capability
 		spec := vfBGPOpenSpec{Version: 4, ASN16: vfBGPASTrans, HoldTime: sc.PeerHoldS, RouterID: id}
 		spec.Params = []vfBGPParamSpec{{Type: 2, Caps: []vfBGPCap{vfBGPCapAS4Value(asn)}}, {Type: 2, Caps: extras}}
 		msg, _, _ := vfBGPEncodeOpen(spec)
 		return msg
 	}
-	return vfBGPSimpleOpen(asn, sc.PeerAS4, sc.PeerHoldS, id, extras, sc.ID%2 == 0)
+	return vfBGPSimpleOpen(asn, cn.as4, sc.PeerHoldS, id, extras, sc.ID%2 == 0)
 }
 
 func (p *c17Peer) dropConn(cn *c17Conn) {
@@ -532,8 +546,8 @@ func (p *c17Peer) serve(cn *c17Conn) {
 		p.end(cn, "scripted drop before the OPEN reply", true)
 		return
 	}
-	wrong := sc.OpenStyle == "wrong-field" || sc.OpenStyle == "wrong-cap"
-	reply := p.peerOpen(sc.OpenStyle)
+	wrong := sc.OpenStyle == "wrong-field" || sc.OpenStyle == "wrong-cap" || sc.OpenStyle == "as-trans-no-cap"
+	reply := p.peerOpen(cn)
 	if !wrong {
 		reply = append(reply, vfBGPEncodeKeepalive()...)
 	}
@@ -636,7 +650,7 @@ func (p *c17Peer) onMessage(cn *c17Conn, raw []byte, wasStalled bool) bool {
 			now = now.Add(-age)
 		}
 	}
-	m, err := vfBGPDecode(raw, p.sc.PeerAS4)
+	m, err := vfBGPDecode(raw, cn.as4)
 	p.c.Eval()
 	if err != nil {
 		p.violation("wire:malformed:"+vfBGPErrCode(err), fmt.Sprintf("connection %d: malformed message: %v (%s)", cn.idx, err, vfHex(raw)))
@@ -696,7 +710,7 @@ func (p *c17Peer) onMessage(cn *c17Conn, raw []byte, wasStalled bool) bool {
 			}
 			path := u.FlatASPath()
 			wantAS := p.sc.MyASN
-			if wantAS > 0xffff && !p.sc.PeerAS4 {
+			if wantAS > 0xffff && !cn.as4 {
 				wantAS = vfBGPASTrans
 			}
 			switch {
@@ -1308,9 +1322,15 @@ func vfc17GenConnScripts(r *vfRand, sc *c17Scenario) {
 		switch k := r.Intn(20); {
 		case k < 3 && backoffs < 2:
 			cs.OpenStyle = vfPick(r, []string{"wrong-field", "wrong-cap"})
+			if sc.PeerASN > 0xffff && sc.PeerASN != vfBGPASTrans && r.Bool() {
+				cs.OpenStyle = "as-trans-no-cap"
+			}
 			backoffs++
 		case k < 5 && sc.PeerAS4:
 			cs.OpenStyle = "cap-wins"
+		}
+		if cs.OpenStyle == "plain" && sc.MyASN <= 0xffff && sc.PeerASN <= 0xffff && r.Chance(1, 3) {
+			cs.AS4 = vfPick(r, []string{"yes", "no"}) // the capability may differ from one connection to the next (peer restarted with another configuration)
 		}
 		if cs.OpenStyle == "plain" || cs.OpenStyle == "cap-wins" {
 			switch k := r.Intn(20); {
@@ -1438,6 +1458,19 @@ func vfc17Directed() []*c17Scenario {
 		{Class: "normal", MyASN: 64512, PeerASN: 64512, PeerAS4: true, HoldS: 90, PeerHoldS: 90,
 			Conns: []c17ConnScript{{OpenStyle: "plain", Fault: "drop-idle", IdleMs: 10}, {OpenStyle: "plain"}},
 			Ops:   []c17Op{{Gap: "sleep", GapMs: 200, Kind: "directed", Routes: routes}, set(), set(routes[1]), set()}},
+		// the peer loses its four-octet capability between two connections (and gains it back): the AS_PATH
+		// of every connection is in the form that connection's OPEN asked for
+		{Class: "normal", MyASN: 64512, PeerASN: 64513, PeerAS4: false, HoldS: 90, PeerHoldS: 90,
+			Conns: []c17ConnScript{{OpenStyle: "plain", AS4: "yes", Fault: "drop-after-msgs", K: 2}, {OpenStyle: "plain", AS4: "no", Fault: "drop-after-msgs", K: 2}, {OpenStyle: "plain", AS4: "yes", Fault: "drop-after-msgs", K: 2}, {OpenStyle: "plain", AS4: "no"}},
+			Ops:   []c17Op{set(routes...)}},
+		{Class: "normal", MyASN: 65535, PeerASN: 65001, PeerAS4: true, HoldS: 90, PeerHoldS: 90,
+			Conns: []c17ConnScript{{OpenStyle: "cap-wins", Fault: "drop-idle", IdleMs: 30}, {OpenStyle: "plain", AS4: "no"}},
+			Ops:   []c17Op{set(routes...), {Gap: "sleep", GapMs: 120, Kind: "directed", Routes: routes[:1]}}},
+		// a peer configured with a four-octet number that says AS_TRANS and carries no capability is AS 23456: refused
+		{Class: "normal", MyASN: 64512, PeerASN: 65537, PeerAS4: true, HoldS: 90, PeerHoldS: 90,
+			Conns: []c17ConnScript{{OpenStyle: "as-trans-no-cap"}, {OpenStyle: "plain"}}, Ops: []c17Op{set(routes...)}},
+		{Class: "normal", MyASN: 4200000001, PeerASN: 4200000001, PeerAS4: true, HoldS: 90, PeerHoldS: 90,
+			Conns: []c17ConnScript{{OpenStyle: "as-trans-no-cap"}, {OpenStyle: "cap-wins"}}, Ops: []c17Op{set(routes[0])}},
 		// Close while the peer sits on its OPEN reply
 		{Class: "normal", MyASN: 64512, PeerASN: 64513, PeerAS4: true, HoldS: 90, PeerHoldS: 90, CloseEarly: true, CloseDelayMs: 20,
 			Conns: []c17ConnScript{{OpenStyle: "plain", HoldOpenMs: 250}}, Ops: []c17Op{set(routes...)}},
